@@ -78,14 +78,14 @@ theorem C09_send_failure_local {s s1 s2 s3 : St} {now : Nat} {r : DReq}
     (getCall (completeRequest s3 r.id .send).1 r.cid).map (·.os.val) = some (some .send) := by
   obtain ⟨hfe, q, key, w, hq, hs2⟩ := insertRequest_ok h2 hp
   -- the successful insert, field by field (the self-wake only touches `dWoken` and the observations)
-  have h2in : s2.inflight = s1.inflight ++ [{ id := r.id, cid := r.cid, ctx := r.ctx, timerKey := key, remainder := (r.ctx.deadline - now) - clampTimeout (r.ctx.deadline - now) }] := by
+  have h2in : s2.inflight = s1.inflight ++ [{ id := r.id, cid := r.cid, ctx := r.ctx, timerKey := key, remainder := (r.ctx.deadline - now) - clampTimeout (r.ctx.deadline - now), dueAt := now + clampTimeout (r.ctx.deadline - now) }] := by
     rw [hs2]; split <;> simp
   have h2ti : s2.timers = q := by rw [hs2]; split <;> simp
   have h2ca : s2.calls = s1.calls := by rw [hs2]; split <;> simp
   have h2te : s2.termErr = s1.termErr := by rw [hs2]; split <;> simp
   -- `tSend` leaves the tables alone
   have e3 : s3 = (tSend s2 (.request r.id r.ctx.deadline r.ctx.trace r.body)).1 := by rw [h3]
-  have hin : s3.inflight = s1.inflight ++ [{ id := r.id, cid := r.cid, ctx := r.ctx, timerKey := key, remainder := (r.ctx.deadline - now) - clampTimeout (r.ctx.deadline - now) }] := by
+  have hin : s3.inflight = s1.inflight ++ [{ id := r.id, cid := r.cid, ctx := r.ctx, timerKey := key, remainder := (r.ctx.deadline - now) - clampTimeout (r.ctx.deadline - now), dueAt := now + clampTimeout (r.ctx.deadline - now) }] := by
     rw [e3, tSend_inflight, h2in]
   have hti : s3.timers = q := by rw [e3, tSend_timers, h2ti]
   have hca : s3.calls = s1.calls := by rw [e3, tSend_calls, h2ca]
@@ -94,7 +94,7 @@ theorem C09_send_failure_local {s s1 s2 s3 : St} {now : Nat} {r : DReq}
     rw [e3, tSend_termErr, h2te]
     have := (pollNextRequest_frameP s).termErr; rw [h1] at this; exact this
   -- the entry just inserted is the one `complete_request` finds
-  have hfind : findEntry s3 r.id = some { id := r.id, cid := r.cid, ctx := r.ctx, timerKey := key, remainder := (r.ctx.deadline - now) - clampTimeout (r.ctx.deadline - now) } := by
+  have hfind : findEntry s3 r.id = some { id := r.id, cid := r.cid, ctx := r.ctx, timerKey := key, remainder := (r.ctx.deadline - now) - clampTimeout (r.ctx.deadline - now), dueAt := now + clampTimeout (r.ctx.deadline - now) } := by
     unfold findEntry at hfe ⊢
     rw [hin, List.find?_append, hfe]; simp
   have hfil : s3.inflight.filter (·.id != r.id) = s1.inflight := by
